@@ -71,6 +71,7 @@ def main():
                 import shutil
 
                 edit = xml_root + ".edit"
+                shutil.rmtree(edit, ignore_errors=True)
                 shutil.copytree(xml_root + ".other", edit)
                 g = ProtocolCodeGenerator(Path(edit))
                 g.generate(Path(out_root + ".first"))
@@ -105,6 +106,39 @@ def main():
                 spelled = os.path.join(parent, "..", os.path.basename(parent), os.path.basename(xml_root))
                 oparent = os.path.dirname(out_root)
                 ProtocolCodeGenerator(Path(spelled)).generate(Path(os.path.join(oparent, "..", os.path.basename(oparent), os.path.basename(out_root))))
+            elif mode == "failed-index-then-good":
+                # one generator instance; each specification file in turn is broken on disk (cut in half, or every
+                # type in it declared twice), the run fails while reading the tree, the file is repaired and the
+                # next run must be as good as a first one
+                import shutil
+
+                edit = xml_root + ".edit"
+                shutil.rmtree(edit, ignore_errors=True)
+                shutil.copytree(xml_root, edit)
+                g = ProtocolCodeGenerator(Path(edit))
+                k = 0
+                failed = 0
+                for d, _dirs, names in sorted(os.walk(edit)):
+                    if "protocol.xml" not in names:
+                        continue
+                    f = os.path.join(d, "protocol.xml")
+                    good = open(f, "rb").read()
+                    k += 1
+                    if k % 2:
+                        bad = good[: max(12, len(good) // 2)]
+                    else:
+                        i, j = good.find(b"<protocol>"), good.rfind(b"</protocol>")
+                        bad = good if i < 0 or j < 0 else good[:j] + good[i + len(b"<protocol>"):j] + good[j:]
+                    open(f, "wb").write(bad)
+                    try:
+                        g.generate(Path(out_root + ".first"))
+                    except Exception:
+                        failed += 1
+                    open(f, "wb").write(good)
+                    del writes[:]
+                    g.generate(Path(out_root))
+                res["failed_runs"] = failed
+                shutil.rmtree(edit)
             elif mode == "failed-then-good":
                 # a failed run (output root blocked by a regular file) must not leak state into the next run
                 g = ProtocolCodeGenerator(Path(xml_root))
